@@ -161,6 +161,7 @@ type frame struct {
 	top     bool
 	cellClo map[*ssa.Alloc]*Closure
 	dbg     map[string]ssa.Value
+	snap    map[ssa.Value][2]Term
 }
 
 func (fx *FX) fresh(prefix string) string {
